@@ -102,7 +102,7 @@ def coq_make(targets=None, timeout=1500):
     return rc == 0, (o + e)[-6000:]
 
 
-REGENERATED = ("Properties_serial.v",)   # depend on gen/*.v regenerated from /repo on every run: handled by serial_side
+REGENERATED = ("Properties_serial.v", "Properties_poolskel.v")   # depend on gen/*.v regenerated from /repo on every run: handled by serial_side
 
 
 def serial_side(run, pid):
@@ -127,6 +127,63 @@ def serial_side(run, pid):
                                        "write/read exactly sizeof(T)(*count) bytes"]
     ok = not mine and not structural
     return ok, (mine + structural), r.get("log", "")
+
+
+def poolskel_side(run, pid):
+    """Regenerate gen/Pool_gen.v (synchronisation skeleton of Worker.hpp and the block constructor, tools/translate_pool.py)
+    from /repo's current source and re-check Properties_poolskel.v against it.  Returns (ok, failed_names, generated_skeleton)."""
+    import fcntl, translate_pool
+    translate_pool.REPO = REPO
+    lockf = open("/var/tmp/verif_poolskel.lock", "w")
+    fcntl.flock(lockf, fcntl.LOCK_EX)
+    work = tempfile.mkdtemp(prefix="poolskel.", dir="/var/tmp")
+    failed, log = [], ""
+    try:
+        res, problems = translate_pool.translate()
+        gen = os.path.join(COQ, "theories", "gen", "Pool_gen.v")
+        os.makedirs(os.path.dirname(gen), exist_ok=True)
+        translate_pool.emit(res, gen)
+        coq_make(["theories/PoolSkeleton.vo"])
+        rc, o, e = sh("timeout 200 coqc -Q theories LibCSD theories/gen/Pool_gen.v", cwd=COQ, timeout=230)
+        if rc != 0 or problems:
+            failed.append("Pool_gen(translator)")
+            log = (o + e)[-1500:] + " problems=%s" % problems
+        src = open(os.path.join(COQ, "theories", "Properties_poolskel.v")).read().split("\n")
+        names = re.findall(r"(?m)^Theorem\s+(\w+)", "\n".join(src))
+        for _ in range(12):
+            if failed and failed[0].startswith("Pool_gen"):
+                break
+            wf = os.path.join(work, "Properties_poolskel.v")
+            open(wf, "w").write("\n".join(src))
+            rc, o, e = sh("timeout 200 coqc -Q %s LibCSD %s" % (os.path.join(COQ, "theories"), wf), cwd=work, timeout=230)
+            if rc == 0:
+                break
+            m = re.search(r"line (\d+), characters", o + e)
+            if not m:
+                failed.append("Properties_poolskel(unlocated)")
+                log += (o + e)[-1000:]
+                break
+            line = int(m.group(1)) - 1
+            starts = [i for i, l in enumerate(src) if l.startswith("Theorem ")]
+            st = max(i for i in starts if i <= line)
+            nm = re.match(r"Theorem\s+(\w+)", src[st]).group(1)
+            en = min([i for i in starts if i > st] + [len(src)])
+            failed.append(nm)
+            log += "FAILED %s: %s\n" % (nm, " ".join((o + e).split())[-300:])
+            src[st:en] = ["(* removed %s *)" % nm]
+        mine = [n for n in names if n.startswith(pid + "_")]
+        for n in mine:
+            run.oblige("regenerated obligation %s (synchronisation skeleton of the current source = modelled skeleton)" % n,
+                       n not in failed and not any(f.startswith("Pool_gen") or f.startswith("Properties_poolskel(") for f in failed),
+                       "" if n not in failed else "skeleton extracted from the current source differs from the reference the LTS models")
+        run.extra["poolskel_check"] = {"failed": failed, "log_tail": log[-1200:]}
+        run.trusted = list(run.trusted) + ["tools/translate_pool.py (token-level extraction of lock/wait/notify/shared-access events from Worker.hpp and the block constructor)"]
+        bad = [n for n in mine if n in failed] + [f for f in failed if not re.match(r"C\d\d_", f)]
+        return (not bad), bad, dict(res)
+    finally:
+        shutil.rmtree(work, ignore_errors=True)
+        fcntl.flock(lockf, fcntl.LOCK_UN)
+        lockf.close()
 
 
 def property_files(pid):
